@@ -17,7 +17,8 @@ RULE = (
     "rejected) must be a walk in tealer's graph with callsub->callee entry and retsub->block after the matching "
     "callsub. dispatch: Function.blocks of the function built for a drawn root-to-block dispatch path: bz/bnz "
     "successors positionally [fall-through, target] with off-path ones replaced in place by an error stand-in, "
-    "mirrored lists, contract graph untouched (non-trivial = the path follows a jump edge). Non-trivial = program has dead code that branches/calls into live code, a back edge, or a branch "
+    "mirrored lists, contract graph untouched, and - also after a second function of the same contract has been built on the same parse - "
+    "the global successors of the function's retsub blocks are exactly the blocks after the function's own call sites (non-trivial = the path follows a jump edge). Non-trivial = program has dead code that branches/calls into live code, a back edge, or a branch "
     "to the next line; distinct by rendered source."
 )
 ASSUMPTIONS = ["R-CFG (vf/rcfg.py) and R-AVM (vf/ravm.py) are the references; generated programs are assembler-valid by construction"]
@@ -173,6 +174,8 @@ def dispatch_case(draw):
     longer = [x for x in paths if len(x) >= 2]
     p = dict(p)
     p["path"] = draw(st.sampled_from(longer)) if longer and draw(st.integers(0, 4)) else draw(st.sampled_from(paths))
+    # a second function of the same contract, built after the first one on the same parse (or not at all)
+    p["other"] = draw(st.sampled_from(paths)) if draw(st.booleans()) else None
     return p
 
 
@@ -195,6 +198,15 @@ def check_dispatch(case):
         raise Violation("function-crash", f"construct_function({path}) raised {type(e).__name__}: {e}\n{g.text}")
     finally:
         adapter.clear_caches()
+
+    if case.get("other"):
+        try:
+            with adapter.captured():
+                construct_function(teal, [f"B{idx_of[l]}" for l in case["other"]], "g")
+        except BaseException as e:  # pylint: disable=broad-except
+            raise Violation("function-crash", f"construct_function({case['other']}) after {path} raised {type(e).__name__}: {e}\n{g.text}")
+        finally:
+            adapter.clear_caches()
 
     def is_standin(b):
         return len(b.instructions) == 1 and type(b.instructions[0]).__name__ == "TealerCustomErrInstruction"
@@ -225,6 +237,22 @@ def check_dispatch(case):
                 raise Violation("next-prev-not-mirrored", f"function: edge {ls[0]}->{'ERR' if is_standin(x) else x.entry_instr.line}: next {b.next.count(x)}x, prev {x.prev.count(b)}x: {where}")
             if not is_standin(x) and first.get(x.entry_instr.line) is not x:
                 raise Violation("next-outside-graph", f"function: successor of line {ls[0]} at line {x.entry_instr.line} is not a block of the function: {where}")
+    # global successors of the function's retsub blocks: exactly the blocks following the function's own call
+    # sites of that subroutine (also after another function of the contract has been built)
+    from tealer.utils.analyses import next_blocks_global
+
+    fblocks = list(fn.blocks)
+    for sub in teal.subroutines.values():
+        sites = [b for b in fblocks if b.is_callsub_block and b.called_subroutine is sub]
+        if not sites:
+            continue
+        want_rps = [b.sub_return_point for b in sites if b.sub_return_point is not None]
+        for rb in sub.retsub_blocks:
+            if not any(rb is x for x in fblocks):
+                continue
+            got = next_blocks_global(fn, rb)
+            if sorted(map(id, got)) != sorted(map(id, want_rps)):
+                raise Violation("function-retsub-successors", f"function for {path}{' (then ' + str(case['other']) + ' built)' if case.get('other') else ''}: retsub block at line {rb.entry_instr.line} of {sub.name!r} continues at lines {sorted(x.entry_instr.line for x in got)} (members of the function: {[any(x is y for y in fblocks) for x in got]}), the function's call sites resume at {sorted(x.entry_instr.line for x in want_rps)}\n{g.text}")
     # the contract's own graph is untouched
     check_blocks(g, teal.bbs, g.retained_lines(), "contract-after-function")
     jump_step = any(
